@@ -99,6 +99,9 @@ def big_cases(ctx):
     (decoded from the File Entry independently of pycdlib)"""
     from harness import bigfile
     bigfile.big_case(ctx, 'C10', {'udf': '2.60'}, 0x3ffff800 + 5000, 'udf-two-descriptors', udf_check=True)
+    # a file that needs two ISO9660 extents (> 0xfffff800 bytes) under a UDF name as well: recorded finding (the UDF File
+    # Entry is attached to the last extent only), run on every tier so that it is reported deterministically
+    bigfile.big_case(ctx, 'C10', {'udf': '2.60'}, 0xfffff800 + 5000, 'udf-multi-extent', udf_check=True)
     if not ctx.quick:
         bigfile.big_case(ctx, 'C10', {'udf': '2.60', 'joliet': 3}, 3 * 0x3ffff800 + 1, 'udf-four-descriptors', udf_check=True)
         bigfile.big_case(ctx, 'C10', {'udf': '2.60'}, 0x3ffff800, 'udf-exactly-one-descriptor', udf_check=True)
